@@ -225,8 +225,11 @@ def _strategy_chain(shapes):
                 R2 = draw(st.sampled_from([1, 2])) if op == "multiply" else draw(st.sampled_from([1, Rc]))
                 if op == "multiply" and Rc * R2 > 6:
                     R2 = 1
-                mid.append({"op": op, "fkind": fk, "update_full": draw(st.booleans()),
-                            "g_zero": fk == "rank_one" and draw(st.sampled_from([False, False, False, True]))})
+                # a rank-one factor whose weight is exactly zero, taken through the low-rank update of a cached covariance (the
+                # operand is a density or the result of an earlier product with update_full=True)
+                warm = start in ("pdf", "diag_pdf") or any(m_.get("update_full") for m_ in mid)
+                gz = fk == "rank_one" and warm and draw(st.booleans())
+                mid.append({"op": op, "fkind": fk, "update_full": True if gz else draw(st.booleans()), "g_zero": gz})
                 for nm, sh in pipes.factor_param_shapes(fk, R2, D).items():
                     shapes_[f"f{k}{nm}"] = sh
                 if op == "multiply":
